@@ -27,7 +27,8 @@ TEMPLATES = {
             ["x{k} = p({k}, '{o}', ) or '# xdoctest: +SKIP in a string'"],
             ["x{k} = p({k}, '{o}')   "],                                   # trailing blanks are part of the line
             ["x{k} = await ap({k}, '{o}')"]],                              # top-level await
-    'expr': [["v({k}, '{o}')"], ["(v({k}, '{o}'))"], ["await aw({k}, '{o}')"]],
+    'expr': [["v({k}, '{o}')"], ["(v({k}, '{o}'))"], ["await aw({k}, '{o}')"],
+             ["(w{k} := v({k}, '{o}'))"]],                                  # an expression statement that binds a name
     'semi': [["y{k} = 1; v({k}, '{o}')"]],
     'cmt': [["# just a comment {k}"], ["#comment{k}"]],
     'ml2': [["x{k} = p({k},", "       '{o}')"],
